@@ -193,10 +193,20 @@ def run(ck, facts):
     pd = tool.fn("path_diff")
     body = C.fn_body(pd)
     comp_eq = False
+    pd_defs = dict(flow.defs_of(pd))
+
+    def is_component(e_):
+        # the first part of a `split_once('/')` result: `.0` of it, or the binding in position 0 of a pattern it is destructured with
+        e_ = C.strip(e_)
+        if e_.get("k") == "field" and e_.get("n") == "0":
+            return True
+        if e_.get("k") == "local":
+            d_ = pd_defs.get(e_.get("id"))
+            return bool(d_) and d_[0] == "destructure" and d_[1] is not None and any(x.get("k") == "mcall" and x.get("m") in ("split_once", "split") for x in C.walk(d_[1]))
+        return False
     for n in C.walk(body):
         if n.get("k") == "bin" and n.get("op") in ("Eq", "Ne"):
-            sides = [C.strip(n["l"]), C.strip(n["r"])]
-            if all(s.get("k") == "field" and s.get("n") == "0" for s in sides):
+            if is_component(n["l"]) and is_component(n["r"]):
                 comp_eq = True
     splits = [x for x in C.calls_in(body) if x.get("k") == "mcall" and x.get("m") in ("split_once", "split") and any(C.strip(a).get("v") == "/" for a in x.get("a", []))]
     charwise = [x.get("m") for x in C.calls_in(body) if x.get("k") == "mcall" and x.get("m") in ("bytes", "chars", "char_indices", "as_bytes")]
@@ -530,10 +540,14 @@ def run(ck, facts):
         if "hir" not in f or not re.search(r"::(c|cpp)::header::", f["path"]) or not f["path"].endswith("::fmt"):
             continue
         defs_ = flow.defs_of(f)
-        for n in C.walk(C.fn_body(f)):
-            if n.get("k") == "letst" and isinstance(n.get("pat"), dict) and "guard" in str(n["pat"].get("n")) and n.get("init") is not None:
+        guard_inits = [(n, n["init"]) for n in C.walk(C.fn_body(f)) if n.get("k") == "letst" and isinstance(n.get("pat"), dict) and "guard" in str(n["pat"].get("n")) and n.get("init") is not None]
+        if not guard_inits:
+            # no local: the value handed to the base template's guard slot
+            guard_inits = [(n, fl_["e"]) for n in C.walk(C.fn_body(f)) if n.get("k") == "struct" for fl_ in n.get("fields") or [] if "guard" in fl_.get("n", "")]
+        for n, g_init in guard_inits:
+            if True:
                 ng += 1
-                nodes, todo, seen_ = [], [n["init"]], set()
+                nodes, todo, seen_ = [], [g_init], set()
                 while todo:
                     e_ = todo.pop()
                     for x in C.walk_inl(tool, e_, 2, exclude=[f["path"]]):     # the computation may sit in a helper (`self.header_guard()`)
